@@ -74,9 +74,41 @@ def _cert_ids(pem_blob):
     return out
 
 
+def public_callables(repo=None):
+    """module-qualified names of the public functions / classes the package defines (by `ast`, no import): 'webauthn.helpers.foo:bar'"""
+    repo = repo or os.environ.get("VERIF_REPO", "/repo")
+    out = set()
+    root = os.path.join(repo, "webauthn")
+    for dp, dn, fn in os.walk(root):
+        for f in fn:
+            if not f.endswith(".py"):
+                continue
+            mod = os.path.relpath(os.path.join(dp, f), repo)[:-3].replace(os.sep, ".")
+            if mod.endswith(".__init__"):
+                mod = mod[:-9]
+            try:
+                tree = ast.parse(open(os.path.join(dp, f), encoding="utf-8").read())
+            except Exception:
+                continue
+            for node in tree.body:
+                if isinstance(node, (ast.FunctionDef, ast.AsyncFunctionDef, ast.ClassDef)) and not node.name.startswith("_"):
+                    out.add(mod + ":" + node.name)
+    return out
+
+
+def new_callables(repo=None):
+    try:
+        base = set(json.load(open(BASELINE)).get("api", []))
+    except Exception:
+        base = set()
+    return sorted(public_callables(repo) - base) if base else []
+
+
 def write_baseline(repo):
     h = harvest(repo)
-    json.dump({k: sorted(v, key=str) for k, v in h.items()}, open(BASELINE, "w"), indent=0)
+    d = {k: sorted(v, key=str) for k, v in h.items()}
+    d["api"] = sorted(public_callables(repo))
+    json.dump(d, open(BASELINE, "w"), indent=0)
 
 
 _CACHE = {}
